@@ -74,6 +74,11 @@ RectFails(e) ==
      \cup (IF d = 2 /\ (Len(o.lon180) # Len(o.lon360) \/ \E k \in 1..Len(o.lon360) :
                  o.lon180[k] # (IF o.lon360[k] > 180 THEN o.lon360[k] - 360 ELSE o.lon360[k]))
            THEN {"LonConvention|convert_lon_coordinates"} ELSE {})
+     \* region_indices: exactly the nodes strictly inside the rectangle (bounds in quarter degrees)
+     \cup (IF d = 2 /\ (Len(o.inside) # m \/ \E k \in 1..m :
+                 o.inside[k] # (IF /\ 4 * o.seq[1][k] > o.reg4[1] /\ 4 * o.seq[1][k] < o.reg4[2]
+                                   /\ 4 * o.seq[2][k] > o.reg4[3] /\ 4 * o.seq[2][k] < o.reg4[4] THEN 1 ELSE 0))
+           THEN {"RegionDef|region_indices"} ELSE {})
 LookFails(e) ==
   LET n == Len(e.lat)  k == e.obs.node + 1
       exact == \A a \in 1..n : ExactPair(e.lat[a], e.lon[a], e.q[1], e.q[2])
